@@ -27,7 +27,7 @@ m = {
         "enable": "go build tag: the harness is compiled with `go test -c -tags verif` against /repo through a replace directive",
         "baseline_off_cmd": "for m in . ./api; do (cd /repo/$m && gw=$(go env GOWORK 2>/dev/null); if [ -z \"$gw\" ] || [ \"$gw\" = off ]; then MF=-mod=mod; else MF=; fi; go test $MF -json -vet=off -count=1 -timeout 25m ./...); done",
         "source_commits": ["d460682"],
-        "fix_commits": ["b98118a", "110c8a7", "0dca6d3", "785ee41", "6782f1e", "487337a", "ac8aeff"],
+        "fix_commits": ["b98118a", "9e9e389", "110c8a7", "0dca6d3", "785ee41", "6782f1e", "487337a", "ac8aeff"],
         "add_only": True,
     },
     "engines": [{
